@@ -16,21 +16,32 @@ oracle of the DECLARED domain (exact decimal arithmetic on the arguments the obj
     the storage (and from a second opener of the same file for persistent backends) equals the
     value the objective received (==, same type; floats: exact equality).
 
-Mutations of optuna this check must catch (M1, M3, M4, M5, M6, M7 verified on a scratch copy, see the
-end of the file for the observed violation keys):
-  M1 optuna/_transform.py::_untransform_numerical_param, stepped floats: drop the np.clip
+Mutations of optuna this check must catch. M1-M7 were applied one at a time to a scratch copy and run with
+`VF_REPO=<scratch> ./check C10 --tier quick`; every one ends with exit 1 and these violation keys (history
+suffix omitted where all five histories fire):
+  M1 optuna/_transform.py::_untransform_numerical_param, stepped floats: np.clip dropped
      (`param = float(np.round((t - low) / step) * step + low)`)
-  M2 optuna/samplers/_tpe/probability_distributions.py: discrete truncnorm sampling rounds with
-     np.floor instead of np.round / does not clip to [low, high]
-  M3 optuna/_transform.py::_untransform_numerical_param, ints: return the un-rounded value
-     (`param = trans_param`), so RandomSampler/QMC/NSGA-II hand back a non-integer
-  M4 optuna/trial/_trial.py::Trial._suggest: `if name in trial.distributions` cache branch disabled
-     (second suggest re-samples)
-  M5 optuna/trial/_trial.py::Trial._is_fixed_param: `return contained` (an out-of-range
-     enqueued/fixed value is ignored and the sampler's value is used)
+     -> "RandomSampler|Float step|above-high|*" (also QMC, NSGA-II, TPE start-up): low + k*step lands 1 ulp above
+        high; NSGA-II's crossover retry loop then spins for ever, which the per-case alarm reports as well
+  M2 optuna/samplers/_tpe/probability_distributions.py: the discrete truncated normal returns the raw sample
+     (`ret[:, i] = np.clip(samples, d.low, d.high)`, rounding to the grid dropped)
+     -> "TPESampler|Float step|off-grid|*", "TPESampler(multivariate)|Float step|off-grid|*"
+  M3 optuna/_transform.py::_untransform_numerical_param, ints: `param = trans_param` (not rounded / clipped / int)
+     -> "RandomSampler|Int step|off-grid|*", "RandomSampler|Int|live-trial.params-differs|*" (QMC, NSGA-II, TPE too)
+  M4 optuna/trial/_trial.py::Trial._suggest: the `if name in trial.distributions` cache branch disabled
+     -> "<every sampler>|<every class>|second-suggest-differs|*", "...|stored-value-differs[study.trials](mem)|*",
+        "...|live-trial.params-differs|*"
+  M5 optuna/trial/_trial.py::Trial._is_fixed_param: `return contained` (out-of-range enqueued value ignored)
+     -> "<every sampler>|<every numeric class>|enqueued-value-not-returned|history=enqueued-out-of-range"
   M6 optuna/distributions.py::IntDistribution.to_external_repr returns float(...)
-  M7 optuna/samplers/_tpe/parzen_estimator.py::_untransform: IntDistribution values not clipped
-     (drop the np.clip around `low + round((x - low) / step) * step`)
+     -> "<every sampler>|Int*|stored-type-differs[study.trials](mem)|*", "...[second-opener](jfile-sym)|*"
+  M7 optuna/trial/_trial.py::Trial._is_relative_param: `return True` (the _contains check on the relative value dropped)
+     -> "QMCSampler|Float|above-high|history=different-range", "QMCSampler|Float step|off-grid|history=different-range",
+        "QMCSampler|Int step|off-grid|history=different-range", "QMCSampler|Int log|above-high|history=different-range"
+Deliberately NOT violations of C10 (tried, silent, as they should be): np.floor instead of np.round in TPE's discrete
+truncated normal with the clip kept (values stay members of the domain, only the distribution is skewed); dropping the
+second clip in _ParzenEstimator._untransform for ints; NSGA-II's `_is_contained` retry loop removed (Trial._is_relative_param
+rejects the child and samples independently).
 """
 from __future__ import annotations
 
